@@ -499,11 +499,13 @@ class WebSocket(object):
                 log.debug('%r enabled', compression)
         return enabled_extensions
 
-    def send_ping(self, data=b''):
+    def send_ping(self, data=b'', state=None):
         """Send a ping packet.
 
         :param bytes data: Data to send in the ping message (must be <=
             125 bytes).
+        :param state: Used by the session (the connection to ping, the
+            most recent one by default).
         :raises TypeError: If `data` is not bytes.
         :raises ValueError: If `data` is > 125 bytes.
 
@@ -512,7 +514,9 @@ class WebSocket(object):
             raise TypeError('data argument must be bytes')
         if len(data) > 125:
             raise ValueError('ping data should be <= 125 bytes')
-        self._get_session(self.state).send(Opcode.PING, data)
+        self._get_session(
+            self.state if state is None else state
+        ).send(Opcode.PING, data)
 
     def send_pong(self, data):
         """Send a pong packet.
